@@ -83,6 +83,7 @@ THEOREMS = [
     "Nix.C05.kept_handle_cases",
     "Nix.C05.detached_stays_detached",
     "Nix.C05.deleted_entity_refused_forever",
+    "Nix.C05.entities_inside_a_copy_refused",
 ]
 ASSUMPTIONS = [
     "HDF5 hard links are second names of one object (modelled: a link stores the target node's key); h5py object "
@@ -129,7 +130,9 @@ MANIFEST = {
                   "equal to the model on every graph and value: all refusals before the first write), and deleting an entity from its block is proved to leave it such a node - for ALL later histories "
                   "(creations, also under its old name, deletions, append, extend, role links, attribute writes, reopen, and any "
                   "of these calls handed any kept handle: every call only links what was linked before or is new, so the node is "
-                  "never linked again and every later state refuses it). The statement lists of "
+                  "never linked again and every later state refuses it); no node an HDF5 copy made inside a copied tag / multi-tag / "
+                  "array (the duplicates of what the source links to, carrying the names and ids of members) is a member of a block "
+                  "that existed before: lists, positions / extents and feature data refuse it. The statement lists of "
                   "link_data_array / link_data_frame / remove_link / the ticks setter, the DataFrame branch of the DimensionLink.unit "
                   "getter and setter, the membership tests in front of "
                   "every link assignment and the object comparisons of Container.__contains__ / SourceLinkContainer are "
